@@ -621,6 +621,8 @@ def run(tier):
     chk.floor('rule instances', len(chk.obls), 30)
     from .. import lints
     lints.length_is_boolean(chk, ['src/ssl/'])
+    from .. import t0mandatory as _t0m
+    _t0m.check(chk, ('hs_client', 'hs_server'))
     from .. import lints as _lints_ir
     _lints_ir.ignored_result_regression(chk, ['src/ssl/'])
     return chk.finish()
